@@ -67,6 +67,9 @@ class Adapter:
         if kind == "affinity":
             p.cpu_affinity([0])
             return ("affinity", (0,))
+        if kind == "affinity_all":
+            p.cpu_affinity([])          # "all eligible CPUs": the world has two
+            return ("affinity", (0, 1))
         raise ValueError(kind)
 
     def outcome(self, fn):
@@ -139,6 +142,23 @@ class Adapter:
                 exp = []
             if [tuple(x) for x in new] != exp:
                 return "kernel received settings %r, specification predicts %r" % (new, exp)
+        elif op in ("enter", "exit"):
+            if op == "enter":
+                cm = self.objs[e["o"]].oneshot()
+                cm.__enter__()
+                self.blocks = getattr(self, "blocks", {})
+                self.blocks[e["o"]] = cm
+            else:
+                self.blocks.pop(e["o"]).__exit__(None, None, None)
+            return None
+        elif op == "wait":
+            try:
+                v = self.objs[e["o"]].wait(0)
+                got = "none" if v is None else "value:%r" % (v,)
+            except ps.TimeoutExpired:
+                got = "timeout"
+            except Exception as ex:  # noqa: BLE001
+                got = type(ex).__name__
         elif op == "ppid":
             res, v = self.outcome(self.objs[e["o"]].ppid)
             got = "val" if res == "ok" else res
@@ -356,7 +376,7 @@ def check(ctx):
         "algorithm variant checked by TLC: Fixes = %s" % sorted(FIXES),
     ]
     # (1) exhaustive check
-    allsetters = ("nice", "ionice", "rlimit", "affinity")
+    allsetters = ("nice", "ionice", "rlimit", "affinity", "affinity_all")
     if thorough:
         c = consts({1, 2}, {1, 2, 3}, 4, 3, sigs=(9, 15), setters=allsetters, kinds=("proc", "popen"))
         r = tlc_check(ctx, "exhaustive-2pid-3obj", c, props, timeout=1500)
@@ -390,7 +410,7 @@ def check(ctx):
         raise core.Machinery("vacuity: result classes never exercised: %s" % sorted(need - allops))
     # (3) deep random behaviours of a larger configuration
     cs = consts({1, 2, 3}, {1, 2, 3}, 6, 4, sigs=(9, 15, 19, 18, 1), setters=allsetters,
-                kinds=("proc", "popen"))
+                kinds=("proc", "popen", "oneshot"))
     replay_sim(ctx, "simulate-3pid-3obj", cs, 4000 if thorough else 600, 40)
     if prop == "C02":
         # is_running() / object identity under process_iter() traffic: the
@@ -400,10 +420,11 @@ def check(ctx):
 
 
 DUMPS = [
-    ("dump-1pid-2obj", lambda: consts({1}, {1, 2}, 2, 1, sigs=(9,), setters=("nice",))),
+    ("dump-1pid-2obj", lambda: consts({1}, {1, 2}, 2, 1, sigs=(9,), setters=("affinity_all",))),
     ("dump-2pid-1obj", lambda: consts({1, 2}, {1}, 2, 1, sigs=(15,), setters=("rlimit",))),
     ("dump-pid0", lambda: consts({0, 1}, {1}, 2, 1, sigs=(9, 15, 19, 18, 10), setters=())),
     ("dump-popen", lambda: consts({1}, {1, 2}, 2, 1, sigs=(9,), setters=("affinity",), kinds=("popen",))),
+    ("dump-oneshot", lambda: consts({1}, {1}, 2, 1, sigs=(9,), setters=("nice",), kinds=("proc", "oneshot"))),
 ]
 
 
